@@ -18,23 +18,20 @@ Definition to_item (r : ritem) : item :=
 Inductive jkw := KNormal | KFlexStart | KFlexEnd | KStart | KEnd | KLeft | KRight | KCenter
                | KBetween | KAround | KEvenly | KStretch.
 
-(* step 12 prologue: reverse swaps flex-start/flex-end and start/end; then the membership tests *)
+(* step 12 prologue: 'normal' is flex-start; *-reverse swaps flex-start/flex-end; then the membership tests
+   ('start', 'left', 'stretch' fall through: no offset) *)
 Definition jmap_code (reverse : bool) (k : jkw) : justify :=
-  let k1 := if reverse then match k with
-                            | KNormal => KFlexEnd   (* normal -> flex-start -> flex-end *)
-                            | KFlexStart => KFlexEnd | KFlexEnd => KFlexStart
-                            | KStart => KEnd | KEnd => KStart | x => x end
-            else k in
+  let k0 := match k with KNormal => KFlexStart | x => x end in
+  let k1 := if reverse then match k0 with KFlexStart => KFlexEnd | KFlexEnd => KFlexStart | x => x end else k0 in
   match k1 with
   | KEnd | KFlexEnd | KRight => JEnd
   | KCenter => JCenter
   | KAround => JAround
   | KEvenly => JEvenly
   | KBetween => JBetween
-  | KStretch => JStretch
   | _ => JStart
   end.
-(* css-align / css-flexbox 8.2, horizontal ltr: lines are laid out left to right after reversal *)
+(* css-align / css-flexbox 8.2, horizontal ltr; lines are laid out left to right after reversal *)
 Definition jmap_css (reverse : bool) (k : jkw) : justify :=
   match k with
   | KNormal | KFlexStart | KStretch => if reverse then JEnd else JStart
@@ -47,7 +44,7 @@ Definition jmap_css (reverse : bool) (k : jkw) : justify :=
   | KEvenly => JEvenly
   end.
 
-Definition to_jitem (r : ritem) (t : Q) : jitem := mkJ (rid r) t (rpad r + rbord r) (rml r) (rmr r) (rgrow r) (rmin r) (rmax r).
+Definition to_jitem (r : ritem) (t : Q) : jitem := mkJ (rid r) t (rpad r + rbord r) (rml r) (rmr r).
 
 Fixpoint zipj (rs : list ritem) (ts : list Q) : list jitem :=
   match rs, ts with
@@ -71,11 +68,10 @@ Fixpoint all_some {A : Type} (l : list (option A)) : option (list A) :=
 
 Definition row_code (wrapm : nat) (reverse : bool) (k : jkw) (origin W gap : Q) (items : list ritem)
   : option (list (list placed)) :=
-  let growths := sumQ rgrow items in
   all_some (map (fun line =>
     match targets (resolve (map to_item line) gap W) with
     | None => None
-    | Some ts => Some (justify_line (jmap_code reverse k) origin W gap growths (zipj line ts))
+    | Some ts => Some (justify_line (jmap_code reverse k) origin W gap (zipj line ts))
     end) (lines_code wrapm reverse W gap items)).
 
 (* css-flexbox reference of the same pipeline *)
@@ -91,7 +87,7 @@ Definition row_css (wrapm : nat) (reverse : bool) (k : jkw) (origin W gap : Q) (
   all_some (map (fun line =>
     match targets (resolve (map to_item line) gap W) with
     | None => None
-    | Some ts => Some (justify_css (jmap_css reverse k) origin W gap (zipj line ts))
+    | Some ts => Some (justify_css reverse (jmap_css reverse k) origin W gap (zipj line ts))
     end) (lines_css wrapm reverse W gap items)).
 
 (* ---- judge.  Implementation output: per item (id, line index, position_x, width) *)
